@@ -32,7 +32,9 @@ StringNewtype(item) == item.kind = "struct" /\ item.shape = "tuple" /\ Len(item.
                        /\ item.fields[1].ty = "::std::string::String"
 (* a trait listed twice in one derive attribute: two conflicting impls (E0119), so the type has
    none of its promised traits; decidable from the rendered item alone *)
-DerivedTwice(item) == \E a, b \in DOMAIN item.derives : a < b /\ item.derives[a] = item.derives[b]
+DerivedTwice(item) == \/ \E a, b \in DOMAIN item.derives : a < b /\ item.derives[a] = item.derives[b]
+                      (* ... or derived and also implemented by hand for the same type *)
+                      \/ ("derive_conflicts" \in DOMAIN item /\ Len(item.derive_conflicts) > 0)
 C19_DeriveBad(items) ==
     { i \in DOMAIN items : items[i].mod = "" /\ items[i].kind \in {"struct", "enum"} /\ DerivedTwice(items[i]) }
 C19_ItemDiag(item, decl, failed) ==
